@@ -104,7 +104,7 @@ class Sites(ast.NodeVisitor):
 
 class Apply(ast.NodeTransformer):
     def __init__(self, site):
-        self.kind, self.line, self.col, self.extra, _ = site
+        self.kind, self.line, self.col, self.extra = site[:4]
         self.done = False
 
     def hit(self, node):
@@ -240,9 +240,11 @@ def main():
             compile(code, rel, "exec")
         except Exception as exc:  # noqa: BLE001
             continue
-        if code == ast.unparse(tree):
+        base = ast.unparse(tree)
+        if code == base:
             continue
-        mutants.append((s, code))
+        changed = [b for a, b in zip(base.splitlines(), code.splitlines()) if a != b]
+        mutants.append((s + ((changed[0].strip()[:160] if changed else ""),), code))
     src_lines = src.splitlines()
 
     def phase1(m):
@@ -256,7 +258,7 @@ def main():
     surv = 0
     with open(out, "a") as fh:
         for s, d, ok, tail in results:
-            rec = {"file": rel, "kind": s[0], "line": s[1], "col": s[2], "func": s[4], "source_line": src_lines[s[1] - 1].strip()[:160], "tests": "pass" if ok else "killed", "tests_tail": tail}
+            rec = {"file": rel, "kind": s[0], "line": s[1], "col": s[2], "func": s[4], "source_line": src_lines[s[1] - 1].strip()[:160], "mutated": s[5] if len(s) > 5 else "", "tests": "pass" if ok else "killed", "tests_tail": tail}
             if ok:
                 surv += 1
                 rec["checks"] = {}
